@@ -9,7 +9,6 @@
   * `Ly.bset_eq`, `Ly.bslice_eq`, `Ly.bsliceFrom_eq`, `Ly.makeBytes_eq`, `Ly.vslice_eq`
   * `Ly.push_loop`           : `for ; i < n; i++ { buf = append(buf, c) }`
   * `Ly.push_loop_down`      : `for ; i > 0; i-- { buf = append(buf, c) }`
-  * `Ly.push3_loop_down`     : `for ; i > 2; i -= 3 { buf = append(buf, c, c, c) }`
   * `Ly.set_loop`            : `for ; i < n; i++ { buf[i] = c }`
 -/
 import D128.Gen.FormatText
